@@ -318,6 +318,16 @@ def attrs_tables(check, prog):
         if isinstance(n, ast.Assign) and isinstance(n.value, ast.Call) and \
                 ast.unparse(n.value.func).endswith('safe_load'):
             parsed |= set(t.id for t in n.targets if isinstance(t, ast.Name))
+    grew = True
+    while grew:                 # ... and plain copies of them
+        grew = False
+        for n in ast.walk(loadfd):
+            if isinstance(n, ast.Assign) and isinstance(n.value, ast.Name) and \
+                    n.value.id in parsed:
+                for t in n.targets:
+                    if isinstance(t, ast.Name) and t.id not in parsed:
+                        parsed.add(t.id)
+                        grew = True
     check.floor('locals of load() holding the parsed description', len(parsed), 1)
     for n in ast.walk(loadfd):
         if isinstance(n, ast.Subscript) and isinstance(n.value, ast.Name) and \
